@@ -182,6 +182,9 @@ def c09_script(seed, proto, mode="random"):
     old = proto == "at4" and rng.random() < 0.3
     inst = installation(proto, rng, n_acs=(1 if (old and rng.random() < 0.5) else n_acs),
                         n_zones=(0 if zero else rng.randrange(1, 17)), old_format=old)
+    if inst["zones"] and rng.random() < 0.25:      # unnamed zones: the last one, the first one, all of them
+        for z in rng.choice([inst["zones"][-1:], inst["zones"][:1], inst["zones"]]):
+            z["name"] = b""
     ans = answers(inst)
     extras = extra_frames(inst, rng)
     b = ClientBuilder(proto, rng)
@@ -409,6 +412,19 @@ def c14_script(seed, proto):
             b.op(op="resolve_all", how="refuse")
             t += outage
             b.op(op="advance", to=t)
+        if rng.random() < 0.3:
+            # the console accepts the connection but is still restarting: one of the first writes on it
+            # (the refresh requests) fails; the client has to try again and refresh on the next connection
+            b.op(op="auto", how="")
+            b.op(op="quiesce")
+            t += 2125
+            b.op(op="advance", to=t)
+            b.op(op="resolve", how="ok", fault_in=rng.randrange(1, 5))
+            b.op(op="quiesce")
+            b.op(op="auto", how="ok")
+            t += 2625                       # beyond the 2 s retry delay: "the client reconnects"
+            b.op(op="advance", to=t)
+            b.op(op="quiesce")
         b.op(op="auto", how="ok")
         b.op(op="resolve_all", how="ok")
         t += 2125
@@ -434,7 +450,9 @@ def c15_script(seed, proto):
     inst = installation(proto, rng, n_acs=rng.randrange(1, 3), n_zones=rng.randrange(1, 4))
     b = ClientBuilder(proto, rng)
     b.preamble()
-    stage = rng.randrange(0, 14)
+    stage = rng.randrange(0, 15)
+    if stage == 14:
+        return c15_stale_handler(seed, proto, rng, inst)
     b.call("airtouch", "init")
     b.op(op="step", k=rng.randrange(0, 3))
     ans = answers(inst)
@@ -496,6 +514,41 @@ def c15_script(seed, proto):
         b.init(inst2)
         b.shutdown()
     return b.script, {"proto": proto, "seed": seed, "stage": stage}
+
+
+def c15_stale_handler(seed, proto, rng, inst):
+    """shutdown() and a second init() while the handler of the LAST handshake answer of the first life is
+    still running (a zone subscriber attached during the handshake takes 8..20 loop turns): the stale
+    handler must not complete the first life's initialisation inside the second one."""
+    b = ClientBuilder(proto, rng)
+    b.preamble()
+    ans = answers(inst)
+    b.call("airtouch", "init")
+    b.op(op="quiesce")
+    b.op(op="resolve", how="ok")
+    b.op(op="quiesce")
+    for k in range(5):
+        b.op(op="feed", b=ans[k])
+        b.op(op="quiesce")
+    z = inst["zones"][0]
+    b.op(op="sub", who="Zslow", kind="zone", target=f"zone:{z['n']}", hops=rng.randrange(16, 40))
+    b.op(op="feed", b=ans[5])
+    b.op(op="step", k=rng.randrange(1, 4))
+    b.call("airtouch", "shutdown")
+    b.op(op="step", k=rng.randrange(8, 13))    # shutdown() has returned; the slow subscriber has not
+    b.call("airtouch", "init")
+    b.op(op="quiesce")                 # the slow subscriber returns, the stale handler resumes
+    b.op(op="resolve_all", how="ok")
+    b.op(op="quiesce")
+    for f in ans:
+        b.op(op="feed", b=f)
+        b.op(op="quiesce")
+    b.op(op="snapshot", tag="second_life")
+    b.op(op="advance", by=5125)
+    b.op(op="quiesce")
+    b.shutdown()
+    b.op(op="snapshot", tag="after_shutdown")
+    return b.script, {"proto": proto, "seed": seed, "stage": 14}
 
 
 # ---------------------------------------------------------------------------------------------
@@ -632,6 +685,13 @@ def c10_script(seed, proto, combos=None, subscribers=False, raising=False):
             break
         if not subscribers and combos is None and rng.random() < 0.06:
             stalled_report(b, inst, rng)
+            continue
+        if subscribers and combos is None and rng.random() < 0.04:
+            # a second life of the same object: the AC and zone objects (and their subscribers) are rebuilt,
+            # a subscriber of the AirTouch itself stays subscribed
+            b.shutdown()
+            b.init(inst)
+            subs = add_subscribers(b, inst, rng, raising=raising)
             continue
         tag, fr = history_frame(inst, rng, combos)
         if rng.random() < 0.2:
@@ -836,7 +896,9 @@ def c19_pair(seed):
             elif r < 0.5:
                 call = (tgt, "set_fan_speed", [E("AcFanSpeed", rng.choice(AC_FANS[:7]))], None)
             elif r < 0.65:
-                call = (tgt, "set_target_temperature", [{"twentieths": 20 * rng.randrange(12, 36)}], None)
+                # any value, or exactly the set-point the unit last reported (a request is a request)
+                t20 = 20 * a["status"]["sp"] if rng.random() < 0.3 else 20 * rng.randrange(12, 36)
+                call = (tgt, "set_target_temperature", [{"twentieths": t20}], None)
             elif r < 0.72:
                 call = (tgt, "set_quick_timer", [E("AcTimerType", rng.choice(["ON_TIMER", "OFF_TIMER"])), {"time": [rng.randrange(24), rng.randrange(60)]}], None)
             elif r < 0.76:
@@ -848,9 +910,11 @@ def c19_pair(seed):
                 if r2 < 0.3:
                     call = (zt, "set_power", [E("ZonePowerState", rng.choice(ZONE_POWER))], None)
                 elif r2 < 0.65:
-                    call = (zt, "set_target_temperature", [{"twentieths": 20 * rng.randrange(14, 32)}], None)
+                    t20 = 20 * z["status"]["sp"] if rng.random() < 0.4 else 20 * rng.randrange(14, 32)
+                    call = (zt, "set_target_temperature", [{"twentieths": t20}], None)
                 else:
-                    call = (zt, "set_damper_percentage", [rng.randrange(-5, 106)], None)
+                    pct = z["status"]["pct"] if rng.random() < 0.3 else rng.randrange(-5, 106)
+                    call = (zt, "set_damper_percentage", [pct], None)
             else:
                 call = ("airtouch", "check_for_updates", [], None)
             for p in ("at4", "at5"):
